@@ -365,6 +365,7 @@ type observation struct {
 	callEnd   time.Time
 	maxLag    time.Duration // worst wake-up lag seen by the lag meter and by the relay handlers
 	maxPipe   time.Duration // worst measured delay of the strategy's own request pipeline
+	overrun   time.Duration // return of the call relative to the deadline
 	badPaths  int
 	hungCall  bool
 	// blockrelay layer
@@ -584,10 +585,9 @@ func run(c *Case) (*observation, error) {
 		}
 		r.mu.Unlock()
 	}
-	// how late the strategy noticed its deadline (only when it ran into it)
-	if d := o.callEnd.Sub(o.deadline); d > o.maxPipe {
-		o.maxPipe = d
-	}
+	// How late the strategy came back after its deadline is recorded but is no evidence of a
+	// starved process: a strategy that overruns its deadline is what lets late bids win.
+	o.overrun = o.callEnd.Sub(o.deadline)
 	sort.SliceStable(o.served, func(i, j int) bool { return o.served[i].At.Before(o.served[j].At) })
 	cancel()
 	// let the strategy's request goroutines finish
@@ -1003,6 +1003,9 @@ func check(t ev.TB, c *Case) {
 	}
 	if o.hungCall {
 		labels = append(labels, "call-needed-release")
+	}
+	if o.overrun > 100*time.Millisecond {
+		labels = append(labels, "returned>100ms-after-deadline")
 	}
 	for i := range c.Relays {
 		for k := range c.Relays[i].Script {
